@@ -321,3 +321,48 @@ def translate_thresholds(repo, lean):
     info['keepSq'] = 'modulus[N-1] %s T_sq' % ts[0]
     info['obligations'] = ['Ruint.Gen.RedcFacts.keepMul_sound', 'Ruint.Gen.RedcFacts.keepSq_sound']
     return info
+
+
+# ----------------------------------------------------------------------------------------------
+# thorough tier: the corpus and a structured sample again under --release (debug_assert!s compiled out: a dropped
+# carry is then a wrong value instead of a panic); judged against python big-integer arithmetic
+
+def py_spec(case):
+    t = case.split(' ')
+    op = t[0]
+    if op in ('mulredc', 'umulredc'):
+        n, a, b, m = int(t[1]), int(t[2], 16), int(t[3], 16), int(t[4], 16)
+    else:
+        n, a, m = int(t[1]), int(t[2], 16), int(t[3], 16)
+        b = a
+    if op[0] == 'u':
+        if n == 0:
+            return '0'
+        n = nlimbs(n)
+    r = 1 << (64 * n)
+    return hx(a * b * pow(r, -1, m) % m) if m > 1 else '0'
+
+
+def extra_checks(tier, rng, findings):
+    if tier != 'thorough':
+        return {}
+    import vlib
+    binpath, secs = vlib.build_harness(BIN, release=True)
+    cases = []
+    cpath = os.path.join(vlib.ROOT, 'corpus', 'C11.cases')
+    if os.path.exists(cpath):
+        cases += [l.strip() for l in open(cpath) if l.strip() and not l.startswith('#')]
+    g = gen(rng, 'quick')
+    for k, c in enumerate(g):
+        cases.append(c)
+        if k > 60000:
+            break
+    impl, _ = vlib.run_impl(binpath, cases, timeout=900)
+    viol = []
+    for c, i in zip(cases, impl):
+        want = py_spec(c)
+        if i != want:
+            viol.append(('impl-violation', c, i + ' (release profile)', 'skip', want))
+    return {'violations': viol[:50],
+            'coverage': {'release_profile_rerun': {'cases': len(cases), 'mismatches': len(viol), 'build_s': round(secs, 1),
+                                                   'oracle': 'python big integers: a*b*R^-1 mod m'}}}
